@@ -6,6 +6,7 @@ PROG half: programs with the tagged relation vs the same programs with a plain r
            expected = specification oracle on the explicit program."""
 import json
 import os
+import time
 
 from .. import c12_ds as ds
 from .. import c12_prog as cp
@@ -225,11 +226,15 @@ def tie(tier, seed, replay):
     mism, stats = [], new_stats()
     dsc = [c for c in cases if c.get("kind", "ds") == "ds"]
     pgc = [c for c in cases if c.get("kind") == "prog"]
+    t0 = time.time()
     for i in range(0, len(dsc), 6000):
         tie_ds(binary, dsc[i:i + 6000], mism, stats)
+    t1 = time.time()
     results = []
     for i in range(0, len(pgc), 100):
         results += cp.run(pgc[i:i + 100], tag="c12")
+    t2 = time.time()
+    print("c12 tie: DS half %.1fs (%d histories), PROG half %.1fs (%d programs)" % (t1 - t0, len(dsc), t2 - t1, len(pgc)))
     feats = {}
     for r in results:
         pm = []
